@@ -13,10 +13,10 @@ EXTENDS Naturals, Sequences, FiniteSets, Json, TLC
 
 CONSTANT TraceFile
 
-Tags == {"none", "ren", "typeOnly", "rensub", "typeOnlysub", "subeq", "subup", "subfirst", "renopt", "typeOnlyRen"}
+Tags == {"none", "ren", "typeOnly", "rensub", "typeOnlysub", "subeq", "subup", "subfirst", "renopt", "typeOnlyRen", "subonly"}
 \* subeq: ",typeOnly,subtype=k=v" (a subtype containing "=");  subup: "Ren,subtype=Foo" (names are lower-cased, subtypes are not)
 \* subfirst: ",subtype=s,typeOnly" (options in the other order);  renopt: "Ren,other" (an option the library does not know);
-\* typeOnlyRen: "Ren,typeOnly" (the type-only option empties a given name too)
+\* typeOnlyRen: "Ren,typeOnly" (the type-only option empties a given name too);  subonly: ",subtype=s" (the name stays the field's)
 Fld(n, t, g) == [fname |-> n, ftype |-> t, tag |-> g]
 NoSide == [kind |-> "none", ptr |-> 0, types |-> <<>>, fields |-> <<>>]
 PosSide(ts) == [kind |-> "pos", ptr |-> 0, types |-> ts, fields |-> <<>>]
@@ -43,9 +43,9 @@ Descs == { [inp |-> i, out |-> o, errpos |-> e, special |-> ""] : i \in Sides, o
 
 Lower(n) == CASE n = "Alpha" -> "alpha" [] n = "BETA" -> "beta" [] n = "Ren" -> "ren" [] OTHER -> n
 FieldValue(f) ==
-  [name |-> CASE f.tag = "none" -> Lower(f.fname) [] f.tag \in {"ren", "rensub", "subup", "renopt"} -> "ren" [] OTHER -> "",      \* typeOnly, typeOnlysub, subeq, subfirst, typeOnlyRen
+  [name |-> CASE f.tag \in {"none", "subonly"} -> Lower(f.fname) [] f.tag \in {"ren", "rensub", "subup", "renopt"} -> "ren" [] OTHER -> "",      \* typeOnly, typeOnlysub, subeq, subfirst, typeOnlyRen
    type |-> f.ftype,
-   sub  |-> CASE f.tag \in {"rensub", "typeOnlysub", "subfirst"} -> "s" [] f.tag = "subeq" -> "k=v" [] f.tag = "subup" -> "Foo" [] OTHER -> ""]
+   sub  |-> CASE f.tag \in {"rensub", "typeOnlysub", "subfirst", "subonly"} -> "s" [] f.tag = "subeq" -> "k=v" [] f.tag = "subup" -> "Foo" [] OTHER -> ""]
 SideValues(s) == CASE s.kind = "none" -> <<>>
                    [] s.kind = "pos" -> [i \in DOMAIN s.types |-> [name |-> "", type |-> s.types[i], sub |-> ""]]
                    [] OTHER -> [i \in DOMAIN s.fields |-> FieldValue(s.fields[i])]
